@@ -93,6 +93,7 @@ type CAOpts struct {
 	RawSubject []byte // DER Name used verbatim as the subject (attribute order and types as given)
 	OCSPSign   bool   // EKU OCSPSigning (for delegated responders)
 	NotCA      bool
+	Key        crypto.Signer // default: a fresh key (a renamed CA keeps its key: same key identifier, other name)
 }
 
 func NewRootCA(cn string, rsaAlg bool) *CA {
@@ -104,7 +105,10 @@ func (parent *CA) NewSubCA(cn string, rsaAlg bool) *CA {
 }
 
 func newCert(parent *CA, o CAOpts) *CA {
-	key := newKey(o.RSA)
+	key := o.Key
+	if key == nil {
+		key = newKey(o.RSA)
+	}
 	ku := o.KeyUsage
 	if ku == 0 && !o.NoKU {
 		ku = x509.KeyUsageCertSign | x509.KeyUsageCRLSign
